@@ -226,6 +226,55 @@ def unit_snapshot(unit):
     return _explore(body, unit)
 
 
+def unit_snapshot_history(unit):
+    """A snapshot is a function of the register file's CURRENT values: capture once, write register r
+    (every name, through set / set_by_name / the flag API) with an arbitrary value, capture again - the
+    second snapshot applied to a fresh file reproduces every readable value of the written file, and
+    to_dict reports them.  (Guards captures that are cached or built incrementally.)"""
+    from symx import env
+    env.setup(extra=["sc62015.pysc62015.stepper"])
+    EMU = _emu()
+    from sc62015.pysc62015 import stepper as ST
+    r, api = unit["reg"], unit["api"]
+
+    def body(eng):
+        regs = EMU.Registers()
+        view = {}
+        for b, m in RF.BASE_MASK.items():
+            if b.startswith("TEMP"):
+                val = 0x111111 * (int(b[4:]) % 3)
+                regs._values[EMU.RegisterName[b]] = val
+                view[b] = z3.BitVecVal(val, W)
+            else:
+                v0 = eng.fresh(b, m.bit_length())
+                regs._values[EMU.RegisterName[b]] = v0
+                view[b] = T(v0)
+        first = ST.CPURegistersSnapshot.from_registers(regs)
+        first.to_dict()
+        v = eng.fresh("v", 32)
+        if api == "enum":
+            regs.set(EMU.RegisterName[r], v)
+        elif api == "name":
+            regs.set_by_name(r, v)
+        else:
+            regs.set_flag(r[1], v)
+        view2 = RF.set_(view, r, T(v))
+        snap = ST.CPURegistersSnapshot.from_registers(regs)
+        fresh = EMU.Registers()
+        snap.apply_to(fresh)
+        for q in RF.ALL:
+            if q.startswith("TEMP"):
+                continue
+            eng.prove(f"snapshot-after-write:{r}:roundtrip:{q}", T(fresh.get(EMU.RegisterName[q])) == RF.get(view2, q),
+                      detail=f"capture, write {r}, capture again, apply to a fresh file: {q}")
+        d = snap.to_dict()
+        for name, b in (("pc", "PC"), ("ba", "BA"), ("i", "I"), ("x", "X"), ("y", "Y"), ("u", "U"), ("s", "S"), ("f", "F")):
+            eng.prove(f"snapshot-after-write:{r}:to_dict:{name}", T(d[name]) == view2[b])
+        return "checked"
+
+    return _explore(body, unit)
+
+
 def unit_blob(unit):
     """pce500.emulator._pack_register_bytes / _unpack_register_bytes: inverse on in-range values,
     18 bytes, little endian, layout PC,BA,I,X,Y,U,S,F."""
